@@ -363,6 +363,9 @@ def observe_where(Ps, amap, entries=("attr", "derive")):
                     rev.setdefault(amap.cache[text], []).append(tag)
                 tags = []
                 for a in it["where"]:
+                    # the name of the bound lifetime of a higher-ranked bound is immaterial (alpha-equivalence)
+                    if a.startswith("for < '__a >"):
+                        a = a.replace("'__a", "'a")
                     # an atom text may stand for several tags only if two levels render identically - they never do,
                     # except a field type that coincides with the type parameter of a marker predicate (never)
                     ts = rev.get(a, ["unknown:" + a])
